@@ -63,6 +63,20 @@ def regenerate():
     return json.loads(r.stdout.strip().splitlines()[-1])
 
 
+def check_root_imports():
+    """every module outside Properties/ must be imported by the library root, otherwise a clean
+    `lake build` leaves it uncompiled and the property files that import it cannot be elaborated"""
+    root = open(os.path.join(LEAN, 'PyaisVerif.lean')).read()
+    have = set(re.findall(r'^import (\S+)', root, re.M))
+    missing = []
+    for d in ('Py', 'Model', 'Spec', 'Generated', 'Lemmas'):
+        for fn in sorted(os.listdir(os.path.join(LEAN, 'PyaisVerif', d))):
+            if fn.endswith('.lean') and 'PyaisVerif.%s.%s' % (d, fn[:-5]) not in have:
+                missing.append('PyaisVerif.%s.%s' % (d, fn[:-5]))
+    if missing:
+        raise Infra('lean/PyaisVerif.lean does not import: %s' % ', '.join(missing))
+
+
 def lake_build():
     # the specification driver does not depend on the generated tables: build it first so that it
     # is available for the failing-input search even when the rest no longer builds
@@ -76,6 +90,7 @@ def ensure_built():
     with BuildLock():
         t0 = time.time()
         info = regenerate()
+        check_root_imports()
         ok, log = lake_build()
         info['build_ok'] = ok
         info['build_log'] = log[-6000:] if not ok else ''
